@@ -260,6 +260,17 @@ def run_shard(acc, prop, tier, seed, shard, nshards, **kw):
                 batch = []
         if batch:
             run_cases(acc, srv, batch)
+        # edge grid: every op on every tuple of boundary constants (zero operands, zero divisors, 10^18, 2^128, maxima)
+        E = [0, 1, 2, D - 1, D, D + 1, M128, U128, M256 - 1, M256, M256 // D, M256 // D + 1]
+        batch = []
+        for op in OPS:
+            n_ = OPS[op][0]
+            tuples = [(a,) for a in E] if n_ == 1 else ([(a, b) for a in E for b in E] if n_ == 2 else
+                                                       [(a, b, c) for a in E[:8] + E[9:10] for b in E[:8] + E[9:10] for c in (0, 1, D, M256)])
+            if shard == 0:
+                batch += [(op, t, "edgegrid") for t in tuples]
+        for i in range(0, len(batch), 2000):
+            run_cases(acc, srv, batch[i:i + 2000])
         # limb grid: exhaustive over {0,1,2^32-1,2^32,2^63,2^64-1}^4 x same for binary ops (thorough),
         # a seeded slice of it in quick
         grid_vals = [sum(l << (64 * i) for i, l in enumerate(ls)) for ls in itertools.product(gen.LIMB_GRID, repeat=4)]
